@@ -591,7 +591,9 @@ fn run_bld(ws: &[&str]) -> Option<(String, Vec<String>)> {
         }
     };
     let ok_call = |c: &&str| *c == "limit" || *c == "maxconn" || *c == "workers" || *c == "listen" || *c == "mptcp:0" || *c == "mptcp:1" || numarg(c, "blocking").is_some() || numarg(c, "backlog").is_some() || numarg(c, "timeout").is_some();
-    if !((1..=8).contains(&workers) && (1..=16).contains(&limit) && workers * limit <= n && n <= 64 && calls.iter().all(ok_call))
+    // a limit of 2^31 or more (up to usize::MAX): nothing ever saturates, every one of the n clients is served
+    let big = limit >= 1usize << 31;
+    if !((1..=8).contains(&workers) && (((1..=16).contains(&limit) && workers * limit <= n) || (big && n >= 1)) && n <= 64 && calls.iter().all(ok_call))
         || calls.iter().filter(|c| **c == "limit" || **c == "maxconn").count() != 1
         || calls.iter().filter(|c| **c == "workers").count() != 1
         || calls.iter().filter(|c| **c == "listen").count() > 3
@@ -756,7 +758,7 @@ fn run_bld(ws: &[&str]) -> Option<(String, Vec<String>)> {
                 clients.push(c);
             }
             // wait for the plateau (every worker saturated), then give an over-dispatch time to show
-            let want = workers * limit;
+            let want = workers.saturating_mul(limit).min(n);
             let t0 = std::time::Instant::now();
             while sh.started.load(Ordering::SeqCst) < want && t0.elapsed() < Duration::from_secs(60) {
                 tokio::time::sleep(Duration::from_millis(10)).await;
@@ -798,7 +800,12 @@ fn run_bld(ws: &[&str]) -> Option<(String, Vec<String>)> {
             if maxper > limit {
                 t3.push(("C02", format!("{maxper} connections in progress on one worker, max_concurrent_connections is {limit} (builder calls: {})", kv(ws, "calls").unwrap_or(""))));
             }
-            if started > workers * limit {
+            if big && started < n {
+                for p in ["C03", "C02"] {
+                    t3.push((p, format!("max_concurrent_connections is {limit}, yet only {started} of {n} waiting connections were dispatched to the {workers} worker(s): spare capacity is not used")));
+                }
+            }
+            if started > workers.saturating_mul(limit) {
                 t3.push(("C02", format!("{started} connections in progress on {workers} workers, max_concurrent_connections is {limit}")));
             }
             format!("max={maxper} started={started} served={done}")
@@ -1792,6 +1799,17 @@ fn gen(a: &Args) {
         }
         writeln!(w, "k-race 5 1 5").unwrap();
         writeln!(w, "k-race 5 1 x").unwrap();
+        // "for every limit ≥ 1": limits beyond 32 bits reach the workers unharmed (real Servers; seed12 C03-23 stored
+        // the limit in a u32)
+        writeln!(w, "bld workers=1 limit=4294967297 n=3 calls=workers,limit").unwrap();
+        writeln!(w, "bld workers=2 limit=18446744073709551615 n=5 calls=maxconn,workers").unwrap();
+        if thorough {
+            writeln!(w, "bld workers=2 limit=4294967296 n=4 calls=limit,workers").unwrap();
+            writeln!(w, "bld workers=1 limit=2147483648 n=2 calls=workers,limit").unwrap();
+            writeln!(w, "bld workers=1 limit=8589934594 n=6 calls=workers,maxconn").unwrap();
+        }
+        writeln!(w, "bld workers=1 limit=18446744073709551616 n=3 calls=workers,limit").unwrap();
+        writeln!(w, "bld workers=1 limit=17 n=20 calls=workers,limit").unwrap();
     }
     if prop == "C04" {
         // a saturated worker receives nothing until it has released a connection — also a worker the server started
@@ -1874,7 +1892,27 @@ fn gen(a: &Args) {
             }
         }
     }
-    if matches!(prop, "C04" | "C02" | "C03" | "C08") {
+    if prop == "C01" {
+        // MANY listeners (more than 256: tokens do not fit a byte): a connection reaches the service of ITS listener
+        // (seed12 C01-24 narrowed the listener record's token to u8)
+        for nl in if thorough { vec![257usize, 260, 300] } else { vec![260usize] } {
+            writeln!(w, "case many-listeners-{nl} workers=2 limit=8 listeners={}", vec!["tcp"; nl].join(",")).unwrap();
+            for l in [nl - 1, 256, 0, 255, nl - 3, 1] {
+                writeln!(w, "connect {l}").unwrap();
+            }
+            writeln!(w, "poll").unwrap();
+            writeln!(w, "poll").unwrap();
+            writeln!(w, "env recv:0,recv:1,recv:0,recv:1,recv:0,recv:1").unwrap();
+            writeln!(w, "connect 256").unwrap();
+            writeln!(w, "env pause").unwrap();
+            writeln!(w, "poll").unwrap();
+            writeln!(w, "env resume").unwrap();
+            writeln!(w, "poll").unwrap();
+            writeln!(w, "poll").unwrap();
+            writeln!(w, "env recv:0,recv:1").unwrap();
+        }
+    }
+    if matches!(prop, "C04" | "C02" | "C03" | "C08" | "C01") {
         // MANY workers (the availability bitset has four 128-bit words, 512 indices): every worker is marked available
         // at start-up and takes its turn; limit 1 saturates them one by one, releases re-open exactly those
         let sizes: &[usize] = if thorough { &[31, 32, 33, 64, 65, 127, 128, 129, 130, 255, 256, 257, 383, 384, 385, 511, 512] } else { &[33, 129, 130, 257, 512] };
